@@ -13,7 +13,7 @@ package client
 //vx:stub (*github.com/AdguardTeam/AdGuardHome/internal/client.upstreamManager).customUpstreamConfig vxC04CustomConf
 //vx:note Lookup entry: registry of 0..3 clients built by the real Add (assumed accepted), each with one ClientID (1 byte; thorough 1..2), one IP, one CIDR (thorough: client 0 two when <=2 clients) and one MAC (6, 8 and 20 bytes), all bytes and prefix lengths symbolic, so equal, overlapping and nested CIDRs arise; IPv4 (quick), plus in quick a small IPv6 registry (<=2 clients with zoned/unzoned IP and CIDR, zoned/unzoned request), thorough: all-IPv6 and mixed v4/v6 registries of <=2 full clients too; request = (ClientID absent or symbolic, symbolic address, DHCP answer chosen when asked: none or a symbolic MAC of 6/8/20 bytes). Reference = decision table ClientID > exact IP > containing CIDR of maximal length (ties between equally long prefixes left open) > leased MAC; identifier equality and CIDR containment (first <length> bits equal, zone ignored) computed over the raw bytes. CustomUpstreamConfig is checked against the same table without the DHCP stage (the implementation does not consult DHCP there; statement leaves it open).
 //vx:note Settings entry: one client reachable by one identifier kind, all per-client and global switches symbolic: own switches/safe-search/blocked services applied exactly when UseOwnSettings / UseOwnBlockedServices, everything else (protection switch, address, service rules) untouched.
-//vx:note History entry: 3 operations forked over Add / Update(target, new version) / RemoveByName(target) on clients with all four identifier kinds or a partial set ({ClientID,CIDR} or {IP,MAC}; thorough also each single kind) so that updates drop and gain identifiers. One identifier kind (or the names) is "in focus" per run: its values are symbolic in every client (equal/overlapping/nested in all ways, incl. an update keeping its own identifiers), the other kinds are fixed and distinct (nested CIDRs 10/8 > 10.1/16 > 10.1.1/24 > 10.1.1.16/28 with the IPs inside); (So two DIFFERENT kinds never clash within one history.) Reference registry = slice of clients; operation accepted iff target exists and no OTHER client shares the name or an identifier. After the history: index sizes equal the reference (no stale entries), every fixed identifier ever mentioned (also of rejected, replaced and removed clients) is looked up through ApplyClientFiltering (ClientID / address / DHCP MAC) and must resolve to the reference owner or nobody, and an arbitrary request (or FindByName with an arbitrary name, whose result must carry the current identifiers) probes the kind in focus. Quick: the history ends at the first rejected operation (the checks follow immediately); thorough: goes on after rejections.
+//vx:note History entry: 3 operations forked over Add / Update(target, new version) / RemoveByName(target) on clients with all four identifier kinds or a partial set ({ClientID,CIDR} or {IP,MAC}; thorough also each single kind) so that updates drop and gain identifiers. One identifier kind (or the names) is "in focus" per run: its values are symbolic in every client (equal/overlapping/nested in all ways, incl. an update keeping its own identifiers), the other kinds are fixed and distinct (nested CIDRs 10/8 > 10.1/16 > 10.1.1/24 > 10.1.1.16/28 with the IPs inside); (So two DIFFERENT kinds never clash within one history.) Reference registry = slice of clients; operation accepted iff target exists and no OTHER client shares the name or an identifier. After the history: index sizes equal the reference (no stale entries), every fixed identifier ever mentioned (also of rejected, replaced and removed clients) is looked up through ApplyClientFiltering (ClientID / address / DHCP MAC) and must resolve to the reference owner or nobody, and an arbitrary request (or FindByName with an arbitrary name, whose result must carry the current identifiers) probes the kind in focus. Quick: the history ends at the first rejected operation (the checks follow immediately); thorough: two slices - (a) 3 operations going on after rejections with all partial shapes, (b) 4 operations ending at the first rejected one.
 //vx:note stubs: (*upstreamManager).customUpstreamConfig records the UID instead of building dnsproxy upstream objects; slices.overlaps (unsafe pointer arithmetic inside slices.Insert) is an engine intrinsic (same address comparison on the engine's own backing arrays); DHCP is a harness fake whose MACByIP answer is arbitrary per request (models lease changes) and which checks it is asked about the request's source address.
 //vx:note outside: histories longer than the bounds; more than one identifier of a kind per client (except 2 CIDRs in thorough lookup); Storage.Find/FindLoose (string parsing of ids, zone-less matching) and SetIDs parsing; runtime clients; concurrency of ApplyClientFiltering with updates (lock discipline is C05); tags/upstream validation in Persistent.validate (valid clients only); UID clashes.
 //vx:opaque (net/netip.Addr).String
@@ -651,7 +651,12 @@ func vxC04History() {
 	// operations.
 	K, nfocus, nx, goOn := 3, 5, 2, false
 	if vx.Thorough() {
-		nx, goOn = 6, true
+		if vx.Choice("deep", 2) == 1 {
+			// a second slice: four operations, ending at the first rejected one
+			K = 4
+		} else {
+			nx, goOn = 6, true
+		}
 	}
 	focus := vx.Choice("focus", nfocus)
 	symNames := focus == 0 || focus == 5
